@@ -12,6 +12,7 @@ type c12In struct {
 	K     string     `json:"k"` // cur | fc | sort
 	Lists [][]uint64 `json:"lists"`
 	Ts    []uint64   `json:"ts"`
+	Pre   []uint64   `json:"pre,omitempty"` // fc: member i is skipped to Pre[i%len] BEFORE the members are grouped (to the model: a cursor over the rest of its list)
 }
 
 const nullEntry = ^uint64(0)
@@ -87,7 +88,7 @@ func nlistlist(ls [][]uint64) string {
 func init() {
 	props["C12"] = &propDef{
 		header:    "From BE Require Import Corr.CheckC12.",
-		rule:      "a 17 000-entry list with a single hop of 2^14+1 positions from an advanced cursor (thorough: a 40 000-entry list, hops of 2^k+-1 up to 2^15+1, also inside a field cursor); random sorted lists with duplicates (length 0..300, so every gallop/bisect boundary is hit) x target sequences (monotone and not, at/around members, beyond the end, the sentinel); groups of 1..5 lists; cursor sets of 0..48 for Sort (plus arrangements of 9..64 cursors: small heads at every position among equal ones, reversed, rotated, exhausted in front); thorough adds every sorted list over {1..5} of length <= 6 x every pair of targets 0..6. Non-trivial = the list(s) are non-empty and at least one call actually moves a cursor; distinct = distinct input",
+		rule:      "a 17 000-entry list with a single hop of 2^14+1 positions from an advanced cursor (thorough: a 40 000-entry list, hops of 2^k+-1 up to 2^15+1, also inside a field cursor); every ninth field-cursor case groups members that were skipped forward (some to their end) BEFORE NewFieldCursor; random sorted lists with duplicates (length 0..300, so every gallop/bisect boundary is hit) x target sequences (monotone and not, at/around members, beyond the end, the sentinel); groups of 1..5 lists; cursor sets of 0..48 for Sort (plus arrangements of 9..64 cursors: small heads at every position among equal ones, reversed, rotated, exhausted in front); thorough adds every sorted list over {1..5} of length <= 6 x every pair of targets 0..6. Non-trivial = the list(s) are non-empty and at least one call actually moves a cursor; distinct = distinct input",
 		shardSize: 500,
 		gen: func(tier string, r *Rand, add func(in interface{})) {
 			// corpus: the list of the unit test and boundary shapes
@@ -151,7 +152,11 @@ func init() {
 						ls = append(ls, l)
 						all = append(all, l...)
 					}
-					add(c12In{K: "fc", Lists: ls, Ts: targets(r, all, 1+r.Intn(20), span)})
+					in := c12In{K: "fc", Lists: ls, Ts: targets(r, all, 1+r.Intn(20), span)}
+					if k%9 == 4 && len(all) > 0 { // members that were advanced (some of them to their end) before being grouped
+						in.Pre = targets(r, all, 1+r.Intn(3), span)
+					}
+					add(in)
 				case 2:
 					g := r.Intn(9)
 					if r.Bool() {
@@ -257,8 +262,24 @@ func init() {
 			case "fc":
 				var cs []be.EntriesCursor
 				nonEmpty := false
+				lists := in.Lists
+				if len(in.Pre) > 0 {
+					lists = nil
+				}
 				for i, l := range in.Lists {
-					cs = append(cs, be.NewEntriesCursor(be.NewQKey("f", i), toEntries(l)))
+					c := be.NewEntriesCursor(be.NewQKey("f", i), toEntries(l))
+					if len(in.Pre) > 0 {
+						t := in.Pre[i%len(in.Pre)]
+						c.SkipTo(be.EntryID(t))
+						rest := []uint64{}
+						for _, e := range l {
+							if e >= t {
+								rest = append(rest, e)
+							}
+						}
+						lists = append(lists, rest)
+					}
+					cs = append(cs, c)
 					nonEmpty = nonEmpty || len(l) > 0
 				}
 				fc := be.NewFieldCursor(cs...)
@@ -280,7 +301,7 @@ func init() {
 					obs = append(obs, rv)
 				}
 				res.Summary = obs
-				res.Coq = fmt.Sprintf("CFc %s %s %s %s", nlistlist(in.Lists), nlist(in.Ts), nl(init), listl(outs))
+				res.Coq = fmt.Sprintf("CFc %s %s %s %s", nlistlist(lists), nlist(in.Ts), nl(init), listl(outs))
 			case "sort":
 				var fcs be.FieldCursors
 				var cs []string
